@@ -5,6 +5,8 @@ INVARIANT TypeOK
 INVARIANT ColumnIndependent
 INVARIANT AssembleMonotone
 INVARIANT PoolIsUnion
+INVARIANT StorageIndependent
+INVARIANT UnitReadsAreUnion
 INVARIANT OrderPermutesColumns
 CONSTRAINT Dump
 CHECK_DEADLOCK FALSE
